@@ -14,6 +14,9 @@ LEVEL_TEXT = (
     "Bounded exploration: generated iteration-engine programs (lazy-only and mixed with sort / deduplication / "
     "materialization, <= 8 / 14 operations) over leaves whose payloads count iteration starts and rows pulled; the "
     "counters are checked after execute() and after each of 1-3 full iterations against bounds derived from the program."
+    "  Programs topped with sort / deduplication and a bounded non-empty slice; calculations that call a method of "
+    "the value; in a third of the cases the result is first iterated partially (peek at one row, iterator "
+    "abandoned)."
 )
 LEVEL_NOTE = "trusts: the counting payload subclass (vf/core/env.py) behaves like RowSequence apart from counting; reference evaluator for row equality"
 RULE = (
